@@ -281,3 +281,6 @@ def run(ctx):
         ctx.ob("C15.R5b", L.short(fn), any(a.op == "store" and const_val(ig.rarg(a.node, 0)) == INITIAL and a.width == 32 for a in sops), fn.loc,
                "reset must store INITIAL over the whole 32-bit word (status and waiter bits)")
     n6 = L.check_special_members(ctx, "C15.R6", fb, r"^babylon::ConcurrentTransientTopic<[^:]*(::[^:<>]+)*<?[^:]*>$")
+
+
+SWEEP = ["concurrent/test_transient_topic.cpp"]
